@@ -1,4 +1,5 @@
 import PedVerif.Lemmas.CheckerEnvs
+import PedVerif.Lemmas.CheckerNoTV
 /-!
 # C08 — checking failures surface only as PedanticException (checker level)
 
@@ -15,15 +16,8 @@ open PedVerif.Gen.TypeTables
 
 /-- **C08 (checker level), full strength.** `assert_value_matches_type` returns or raises a PedanticException, for every
     annotation object, every value, every class table and every behaviour of unsupported annotation objects. -/
-theorem contained (env : Env) (orc : Nat → Val → Raw) (a : Ann) (v : Val) : checkType env orc a v ≠ .escape := by
-  cases a
-  case none => simp only [checkType]; split <;> simp
-  case strAnn n =>
-    simp only [checkType, cfg_strGuard, ↓reduceIte]
-    split
-    · split <;> simp
-    · split <;> simp
-  all_goals (simp only [checkType]; exact wrap_ne_escape _)
+theorem contained (env : Env) (orc : Nat → Val → Raw) (a : Ann) (v : Val) : checkType env orc a v ≠ .escape :=
+  checkType_ne_escape env orc a v
 
 /-- what the caller of `assert_value_matches_type` can observe -/
 theorem outcome_is_return_or_pedantic (env : Env) (orc : Nat → Val → Raw) (a : Ann) (v : Val) :
